@@ -338,6 +338,12 @@ def _add(bundle: Bundle, val: BundleAttr) -> BundleAttr:
         if ctr is not type_ctr:
             ctr.pop(val.name, None)
 
+    # The prior holder of this name, if any, leaves the Bundle - unless we (also) hold it under another name
+    prior = bundle.namespace.get(val.name, None)
+    if prior is not None and prior is not val:
+        if not any(held is prior for name, held in bundle.namespace.items() if name != val.name):
+            prior._parent_bundle = None
+
     # Add it to the bundle namespace, and the type-specific container
     type_ctr[val.name] = val
     bundle.namespace[val.name] = val
